@@ -158,6 +158,9 @@ func c34Engine() *Engine {
 					if !rlog[j-1].Mutating() {
 						continue
 					}
+					if pastDeadline(res) {
+						break
+					}
 					img2 := img1.Clone()
 					for i := 0; i < j; i++ {
 						if rlog[i].Mutating() {
